@@ -237,7 +237,13 @@ func ruleResolvedCalls(c *Ctx) {
 			for _, call := range callsIn(n) {
 				obj := calleeObj(info, call)
 				if isMethod(obj, ribPkg, "RIB", "callResolvedEntryHook") {
-					out = append(out, Event{Kind: "resolved", Node: call})
+					// (the operation constant is read now: inside a helper shared by Add and Delete it is a parameter,
+					// bound differently by each frame)
+					d := &addEvData{call: call}
+					if len(call.Args) > 0 {
+						d.op = constName(info, call.Args[0])
+					}
+					out = append(out, Event{Kind: "resolved", Node: call, Data: d})
 				}
 				for _, k := range ks {
 					if obj == k.Add.Obj || obj == k.Delete.Obj {
@@ -280,9 +286,13 @@ func ruleResolvedCalls(c *Ctx) {
 			f := factsAfter(info, p, mi, len(p.Events))
 			done := md.ok != nil && md.err != nil && f.Obj(md.ok) == +1 && f.Obj(md.err) == -1
 			var res []*ast.CallExpr
+			resOp := map[*ast.CallExpr]string{}
 			for _, e := range p.Events[mi:] {
 				if e.Kind == "resolved" && !e.InLoop {
 					res = append(res, e.Node.(*ast.CallExpr))
+					if d, ok := e.Data.(*addEvData); ok {
+						resOp[e.Node.(*ast.CallExpr)] = d.op
+					}
 				}
 			}
 			seen[k.Table]++
@@ -321,7 +331,10 @@ func ruleResolvedCalls(c *Ctx) {
 					bad[k.Table] = "unexpected arguments of callResolvedEntryHook"
 					continue
 				}
-				op := constName(info, call.Args[0])
+				op := resOp[call]
+				if op == "" {
+					op = constName(info, call.Args[0])
+				}
 				aft := p.TermAtEnd(pe, call.Args[2])
 				key := p.TermAtEnd(pe, call.Args[3])
 				wantKeySuffix := map[string]string{"Ipv4Entry": ".Prefix", "Ipv6Entry": ".Prefix", "LabelEntry": ".Label"}[k.Table]
